@@ -119,6 +119,20 @@ CLAIMED = {
         note=STATIC_NOTE + 'np.linalg.lstsq is trusted (orthogonality of the residual for rank-deficient sets is its '
              'contract); averaging of unequal reference temperatures is not decided.',
         ref='DESIGN.md section 4 C10'),
+    'C13': dict(
+        technique='abstract interpretation of the empirical getters with the attached models as an uninterpreted vector '
+                  '(any number/order) and with the real GasPressureAdj/PiecewiseCovEffect through the real '
+                  '_get_mix_quantity; interpretation of EmpiricalBase.__init__ over the finite case matrix; '
+                  'interpretation of direct to_dict/from_dict cycles',
+        text='Decides for Nasa, Nasa9, Shomate x CpoR/HoRT/SoR/GoRT that the value is the bare polynomial plus the sum '
+             'over every attached model at the same temperature and conditions, for scalar T and for every element of '
+             'arrays (lengths 1-3 quick, 1-5 thorough), for any number and order of models; with real models S = poly '
+             '- ln P, H = poly + coverage energy/RT, Cp unchanged, G = H - S in both orders; that construction over 9 '
+             'phase spellings x misc_models forms x add_gas_P_adj yields exactly one pressure adjustment for gas species '
+             'unless disabled, none otherwise, other models kept once; and that direct to_dict/from_dict cycles (twice) '
+             'keep the attached models as objects.',
+        note=STATIC_NOTE + 'Array clause bounded by the stated length; copy.deepcopy not modelled.',
+        ref='DESIGN.md section 4 C13'),
     'C17': dict(
         technique='abstract interpretation of the real constructor/insert/pop/_set_intercepts/get_UoRT under an '
                   'ordering oracle, exhaustive enumeration of operation sequences up to a bound, comparison with a '
